@@ -90,8 +90,11 @@ def check_maps(names, pepsets, peptide_map, shared, protein_map):
     return None, grouping
 
 
-def _names(P, with_decoy):
+def _names(P, with_decoy, nested=False):
     names = ["T%d" % i for i in range(P)]
+    if nested:
+        # names that are substrings of one another and of joined group names ("T10, T7")
+        names = ["T10", "T7", "T1", "T", "T17"][:P]
     if with_decoy:
         names[-1] = PREFIX + names[0]
     return names
@@ -102,7 +105,7 @@ def sym(ctx, cfg):
     from symx.core import SBool, PathOutcome, Unsupported
     F = setup()
     P, Q = cfg["P"], cfg["Q"]
-    names = _names(P, cfg.get("decoy"))
+    names = _names(P, cfg.get("decoy"), cfg.get("nested"))
     bits = [[SBool(z3.Bool("inc_%d_%d" % (i, k))) for k in range(Q)] for i in range(P)]
     pepsets = {}
     for i, n in enumerate(names):
@@ -147,10 +150,10 @@ def harnesses(tier):
     F = setup()
     hs = []
 
-    def add(P, Q, orders, modes, decoy=False):
+    def add(P, Q, orders, modes, decoy=False, nested=False):
         orders = [list(o) for o in orders]
-        hs.append(Harness("group[%dx%d%s,%d entry orders x %d set orders]" % (P, Q, ",decoy" if decoy else "", len(orders), len(modes)),
-                          dict(P=P, Q=Q, orders=orders, set_orders=list(modes), decoy=decoy), sym, real="fasta",
+        hs.append(Harness("group[%dx%d%s%s,%d entry orders x %d set orders]" % (P, Q, ",decoy" if decoy else "", ",names nested in one another" if nested else "", len(orders), len(modes)),
+                          dict(P=P, Q=Q, orders=orders, set_orders=list(modes), decoy=decoy, nested=nested), sym, real="fasta",
                           functions=[F.read_fasta, F._group_proteins], bounds=dict(proteins=P, peptides=Q, entry_orders=len(orders), set_orders=list(modes)),
                           stubs=["_parse_fasta_files/_parse_protein/digest -> protein i yields the peptide set given by incidence bits",
                                  "set -> ordered set with a fixed global iteration order (asc/desc/rotated): model of PYTHONHASHSEED"],
@@ -161,7 +164,11 @@ def harnesses(tier):
         add(3, 3, allp(3), ["asc", "desc", "rot"])
         add(3, 2, allp(3), ["asc", "desc"], decoy=True)
         add(4, 3, [(0, 1, 2, 3), (3, 2, 1, 0), (1, 3, 0, 2), (2, 0, 3, 1)], ["asc", "desc"])
+        add(3, 3, allp(3), ["asc", "desc"], nested=True)
+        add(4, 3, [(0, 1, 2, 3), (3, 2, 1, 0), (1, 3, 0, 2), (2, 0, 3, 1)], ["asc"], nested=True)
     else:
+        add(4, 3, allp(4), ["asc", "desc"], nested=True)
+        add(4, 4, [(0, 1, 2, 3), (3, 2, 1, 0), (1, 3, 0, 2), (2, 0, 3, 1), (2, 3, 1, 0)], ["asc", "desc"], nested=True)
         add(3, 3, allp(3), ["asc", "desc", "rot"])
         add(3, 3, allp(3), ["asc", "desc"], decoy=True)
         add(4, 3, allp(4), ["asc", "desc", "rot"])
@@ -181,7 +188,7 @@ def real_fasta(cfg, inp):
     import tempfile
     import mokapot
     P, Q = cfg["P"], cfg["Q"]
-    names = _names(P, cfg.get("decoy"))
+    names = _names(P, cfg.get("decoy"), cfg.get("nested"))
     inc = inp["incidence"]
     pepsets = {n: {PEPSEQ[k] for k in range(Q) if inc[i][k]} for i, n in enumerate(names)}
     only = all(n.startswith(PREFIX) or not pepsets[n] for n in names)
